@@ -24,6 +24,7 @@ Conventions (continuing lean/GoSnaps/GoSem.lean)
 -/
 import GoSnaps.Model
 import GoSnaps.GoSem
+import GoSnaps.Natural
 namespace GoSnaps.GoIO
 open GoSnaps
 
@@ -152,6 +153,44 @@ def remove (io : IOFail) (fs : FS) (p : Text) : FS × Err :=
     match fsRead fs p with
     | some _ => (fsRemove fs p, .nil)
     | none => (fs, .other (enoent "remove" p))
+
+/-- an `os.DirEntry` as far as Clean looks at it -/
+structure DirEntry where
+  name : Text
+  isDir : Bool
+deriving Repr, DecidableEq
+
+/-- names directly inside `dir` (regular files of `fs` and the directories implied by longer
+    paths), sorted by name as `os.ReadDir` returns them -/
+def dirEntries (fs : FS) (dir : Text) : List DirEntry :=
+  let pre := if dir = [47] then dir else dir ++ [47]
+  let ents := fs.filterMap (fun (p, _) =>
+    if hasPrefix p pre then
+      let rest := p.drop pre.length
+      let name := rest.takeWhile (· ≠ 47)
+      if name = [] then none else some ({ name := name, isDir := decide (name.length ≠ rest.length) } : DirEntry)
+    else none)
+  let uniq := ents.foldl (fun acc e => if acc.any (·.name = e.name) then acc else acc ++ [e]) []
+  uniq.foldr (fun x acc =>
+    let rec ins : List DirEntry → List DirEntry
+      | [] => [x]
+      | y :: ys => if ltBytes y.name x.name then y :: ins ys else x :: y :: ys
+    ins acc) []
+
+/-- `os.ReadDir(dir)`; a directory no file lives under does not exist -/
+def readDir (io : IOFail) (fs : FS) (dir : Text) : List DirEntry × Err :=
+  match io .readDir dir with
+  | some m => ([], .other m)
+  | none =>
+    let es := dirEntries fs dir
+    if es = [] then ([], .other (enoent "open" dir)) else (es, .nil)
+
+/-- a top-level declaration of a parsed Go file as far as `isFileSkipped` looks at it:
+    `decl.(*ast.FuncDecl)` succeeds iff `isFunc`, and then `funcDecl.Name.String()` is `name` -/
+structure GoDecl where
+  isFunc : Bool
+  name : Text
+deriving Repr, DecidableEq
 
 /-! ## `bufio.Scanner` as configured by `snapshotScanner` -/
 
